@@ -353,6 +353,16 @@ def fixed_cases(tier):
     for k in range(16):
         out.append(_pingpong([((_regs(0, k), 0x5F80, 1), (_regs(0, 50 + k), 0x1FC0, 2))],
                              stack=65536 + k, exitfn="probe" if k % 2 else "default"))
+    # restart storm: one coroutine on the smallest stack the executor offers, started again and again
+    # (more restarts than the stack has 16-byte slots); each run works at some call depth and returns.
+    # Whatever a (re)start costs in stack must not accumulate.
+    n = 2200
+    steps = []
+    for i in range(n):
+        steps.append((0, "start", 1, 0x700 + i, i % 3, tuple(_regs(0, 3 * i)), DEFAULT_MXCSR))
+    for i in range(n):
+        steps.append((1, "return", -1, 0xE000 + i, 10 + i % 7, tuple(_regs(0, 3 * i + 1)), 0x1F80 if i % 2 else 0x7F80))
+    out.append(serialize(("raw", [(0x5707, 32768, "probe" if tier == "quick" else "default")], steps)))
     # process layer: start via event, hold/timer and resume wake-ups, stop + restart, trampoline
     r = lambda s: tuple(_regs(0, s))
     steps = [
